@@ -285,8 +285,41 @@ def _validation(case, out):
         from flumine import clients as _clients
         from flumine.controls.tradingcontrols import OrderValidation
 
+        from betfairlightweight.exceptions import APIError
+
+        class _Account:
+            def __init__(s):
+                s.details = None  # what the account endpoint answers; None: the call fails (transient API error)
+
+            def get_account_details(s):
+                if s.details is None:
+                    raise APIError(None)
+                return s.details
+
+            def get_account_funds(s):
+                raise APIError(None)
+
         class _Api:
             username = "cur"
+
+            def __init__(s):
+                s.account = _Account()
+
+        # the periodic account poll: a failed poll leaves the last known details (and so the currency's minimums) in force
+        for cur in ("SEK", "AUD", "HKD"):
+            bc = _clients.BetfairClient(_Api(), order_stream=False)
+            bc.min_bet_validation = True
+            bc.betting_client.account.details = AccountDetails(currencyCode=cur, discountRate=0)
+            bc.update_account_details()
+            for failed in (False, True, True, False):
+                bc.betting_client.account.details = None if failed else AccountDetails(currencyCode=cur, discountRate=0)
+                bc.update_account_details()
+                par = currency_parameters[cur]
+                for attr, want in (("min_bet_size", par["min_bet_size"]), ("min_bet_payout", par["min_bet_payout"]), ("min_bsp_liability", par["min_bsp_liability"])):
+                    out.rule("validation")
+                    n += 1
+                    if getattr(bc, attr) != want:
+                        out.v("client-minimum-differs-from-currency", {"attr": attr, "first": cur, "after_failed_poll": failed}, currency=cur, got=getattr(bc, attr), expected=want)
 
         for first in (None, "GBP", "AUD", "SEK"):
             bc = _clients.BetfairClient(_Api(), order_stream=False)
@@ -355,6 +388,20 @@ def _validation(case, out):
                     if refused == ok:
                         out.v("ladder-validation-differs", {"ladder": "LINE_RANGE", "expected_valid": ok}, price=p, range=(lo, hi, iv), refused=refused)
                 k += iv
+        # small stakes on line markets: the payout rule is the same as everywhere (stake x price reaches the minimum payout)
+        client.min_bet_validation = True
+        client.account_details = AccountDetails(currencyCode="GBP", discountRate=0)
+        gbp = currency_parameters["GBP"]
+        info = LineRangeInfo(marketUnit="x", interval=1.0, minUnitValue=0.5, maxUnitValue=100.5)
+        for line in (0.5, 4.5, 9.5, 19.5, 25.5, 49.5, 100.5):
+            for size in (0.1, 0.2, 0.4, 0.5, 0.99, 1.0, 2.0):
+                refused = _refused(control, order_of("BACK", LimitOrder(line, size, price_ladder_definition="LINE_RANGE", line_range_info=info)))
+                out.rule("validation")
+                n += 1
+                ok = not (Fraction(str(size)) < Fraction(str(gbp["min_bet_size"])) and Fraction(str(line)) * Fraction(str(size)) < Fraction(str(gbp["min_bet_payout"])))
+                if refused == ok:
+                    out.v("limit-validation-differs", {"expected_valid": ok, "currency_min": True, "ladder": "LINE_RANGE"}, price=line, size=size, refused=refused)
+        client.min_bet_validation = False
         out.d("validation:ladders")
     else:
         from flumine.order.ordertype import BetdaqLimitOrder
